@@ -484,6 +484,11 @@ def c09_same_rules(v):
     """until then forever jobs start under the same requirement and window rules as any job: the eagerness clause of
     C12, read for forever jobs"""
     V = []
+    # ... and window rules: a window exceeded with a forever job among the jobs executing
+    for c in c07(v):
+        names = c[c.find("["):] if "[" in c else ""
+        if any(v.info.get(n.strip(" '[]"), {}).get("forever") for n in names.strip("[]").split(",")):
+            V.append("C09 forever jobs do not start under the same window rules as any job: " + c[4:])
     for c in c12(v):
         parts = c.split(" ")
         # "C12 at t=.. job <name> of <s> is eligible ..."
@@ -547,6 +552,9 @@ def c10_single(v):
             pf = v.fin.get(par)
             if pf is not None and pf[2] == "rraise" and pf[3] == v.exc_of(s):
                 V.append("C10 failure of non-critical %s propagated to %s" % (s, par))
+        if failed and v.info[s]["crit"] and f[2] == "rret" and not v.info[s].get("pure"):
+            # a failed nested run propagates through a critical nested scheduler: it raises, it does not return
+            V.append("C10 critical nested scheduler %s failed but returned %r instead of raising" % (s, f[3]))
         if failed and v.info[s]["crit"] and f[2] == "rraise":
             # the parent aborts exactly as for a raising critical job, the same object bubbling
             pf = v.fin.get(par)
